@@ -3,6 +3,8 @@ package p_isaaca
 import (
 	"context"
 	"fmt"
+	"net"
+	"sort"
 	"strings"
 	"sync"
 	"testing"
@@ -11,13 +13,17 @@ import (
 	"github.com/pkg/errors"
 	"github.com/spikeekips/mitum/base"
 	"github.com/spikeekips/mitum/isaac"
+	"github.com/spikeekips/mitum/network/quicstream"
 	"github.com/spikeekips/mitum/util"
 	"github.com/spikeekips/mitum/util/valuehash"
 	"pgregory.net/rapid"
 	"verif/internal/ev"
 )
 
-var c07NetworkID = base.NetworkID([]byte("verif-c07-network"))
+var (
+	c07NetworkID      = base.NetworkID([]byte("verif-c07-network"))
+	c07OtherNetworkID = base.NetworkID([]byte("verif-c07-another-network"))
+)
 
 // ---- keys (cached: key derivation dominates otherwise)
 
@@ -30,7 +36,7 @@ const c07MaxNodes = 64
 
 func c07Key(i int) base.Privatekey {
 	c07KeysOnce.Do(func() {
-		c07Keys = make([]base.Privatekey, c07MaxNodes+1)
+		c07Keys = make([]base.Privatekey, c07MaxNodes+2) // + the outsider and the forger
 
 		for i := range c07Keys {
 			priv, err := base.NewMPrivatekeyFromSeed(fmt.Sprintf("verif-c07-node-key-seed-%032d", i))
@@ -138,20 +144,164 @@ func c07Names(rt *rapid.T, n int) []string {
 	return names
 }
 
+// ---- peers: what the nodes asked for the selected proposer's proposal answer
+
+const (
+	c07Honest       = iota // the proposal of the asked proposer, signed with its key
+	c07None                // "not found"
+	c07Error               // the request fails
+	c07ForgeAddr           // names another address, signed with the asked proposer's key
+	c07ForgeKey            // names the asked proposer, signed with another key
+	c07ForgeBoth           // names another address, signed with that other node's key
+	c07WrongPoint          // the asked proposer's own proposal, for another point
+	c07WrongNetwork        // names the asked proposer, signed with its key for another network id (signature does not verify)
+	c07NKinds
+)
+
+var c07KindNames = [c07NKinds]string{"honest", "none", "error", "forge-addr", "forge-key", "forge-both", "wrong-point", "wrong-network"}
+
+type c07Peer struct {
+	First int // answer kind when asked for the first-choice proposer
+	Rest  int // answer kind when asked for any other candidate
+	Other int // whose identity a forging answer borrows: a suffrage member index; -1 (or the asked node itself): a node outside the suffrage
+}
+
+const (
+	c07ModeHonest  = iota // one peer, honest (every request is answered at once)
+	c07ModeMixed          // 1..4 peers of any kind
+	c07ModeStarved        // 1..3 peers, none of which has an honest answer for the first-choice proposer
+)
+
 type c07View struct {
-	Perm  []int // order in which this node's suffrage source lists the nodes
-	Local int   // index of the suffrage member this view runs on; -1: a node outside the suffrage
+	Perm   []int // order in which this node's suffrage source lists the nodes
+	Local  int   // index of the suffrage member this view runs on; -1: a node outside the suffrage
+	Mode   int
+	Peers  []c07Peer
+	Pooled bool // the first-choice proposer's proposal is already in this node's pool
+}
+
+// c07Starved: the view can not get the genuine proposal of proposer p: p is remote, not pooled, and no peer answers
+// honestly for it.
+func (v c07View) c07Starved(nodes []isaac.LocalNode, p base.Address) bool {
+	if v.Pooled || (v.Local >= 0 && nodes[v.Local].Address().Equal(p)) {
+		return false
+	}
+
+	for i := range v.Peers {
+		if v.Peers[i].First == c07Honest {
+			return false
+		}
+	}
+
+	return true
 }
 
 type c07Result struct {
-	selected base.Address
-	asked    []base.Address
-	err      error
-	panicked any
-	elapsed  time.Duration
+	pr         base.ProposalSignFact
+	selected   base.Address
+	asked      []base.Address
+	served     [c07NKinds]int
+	pool       []base.ProposalSignFact
+	err        error
+	harnessErr error
+	panicked   any
+	elapsed    time.Duration
 }
 
-func c07RunView(nodes []isaac.LocalNode, outsider isaac.LocalNode, v c07View, point base.Point, prev util.Hash) (res c07Result) {
+// c07Client is the network client the production request function (launch: isaac.ConcurrentRequestProposal over the
+// alive members) talks to; only RequestProposal is ever called.
+type c07Client struct {
+	isaac.NetworkClient
+	f func(quicstream.ConnInfo, base.Point, base.Address, util.Hash) (base.ProposalSignFact, bool, error)
+}
+
+func (c c07Client) RequestProposal(
+	_ context.Context, ci quicstream.ConnInfo, point base.Point, proposer base.Address, prev util.Hash,
+) (base.ProposalSignFact, bool, error) {
+	return c.f(ci, point, proposer, prev)
+}
+
+const c07PortBase = 4000
+
+func c07Sign(point base.Point, addr base.Address, key base.Privatekey, nid base.NetworkID, prev util.Hash) (base.ProposalSignFact, error) {
+	sf := isaac.NewProposalSignFact(isaac.NewProposalFact(point, addr, prev, nil))
+	if err := sf.Sign(key, nid); err != nil {
+		return nil, err
+	}
+
+	return sf, nil
+}
+
+func c07Answer(kind int, asked, other base.LocalNode, point base.Point, prev util.Hash) (base.ProposalSignFact, bool, error) {
+	addr, key, nid, pt := asked.Address(), asked.Privatekey(), c07NetworkID, point
+
+	switch kind {
+	case c07None:
+		return nil, false, nil
+	case c07Error:
+		return nil, false, errors.Errorf("peer is down")
+	case c07ForgeAddr:
+		addr = other.Address()
+	case c07ForgeKey:
+		key = other.Privatekey()
+	case c07ForgeBoth:
+		addr, key = other.Address(), other.Privatekey()
+	case c07WrongPoint:
+		pt = point.NextRound()
+	case c07WrongNetwork:
+		nid = c07OtherNetworkID
+	}
+
+	sf, err := c07Sign(pt, addr, key, nid, prev)
+	if err != nil {
+		return nil, false, err
+	}
+
+	return sf, true, nil
+}
+
+// c07Forged judges one proposal a node came out with (or keeps in its pool) for (point, prev) against the statement:
+// it names a member of the suffrage (or, for what a node made itself, that node) and is signed, for this network, with
+// that node's key, for the asked point. Returns "" when it is fine.
+func c07Forged(pr base.ProposalSignFact, nodes []isaac.LocalNode, local base.LocalNode, point base.Point) (sig, why string) {
+	if pr == nil || pr.ProposalFact() == nil || len(pr.Signs()) < 1 {
+		return "proposal-not-signed-by-proposer", "empty or unsigned proposal"
+	}
+
+	named := pr.ProposalFact().Proposer()
+
+	var id base.LocalNode
+
+	for i := range nodes {
+		if nodes[i].Address().Equal(named) {
+			id = nodes[i]
+		}
+	}
+
+	if id == nil && local.Address().Equal(named) {
+		id = local
+	}
+
+	switch {
+	case id == nil:
+		return "proposer-not-member", fmt.Sprintf("names %v as proposer, which is not a suffrage member", named)
+	case !pr.Signs()[0].Signer().Equal(id.Publickey()):
+		return "proposal-not-signed-by-proposer", fmt.Sprintf("names %v as proposer but is signed with another node's key", named)
+	case pr.IsValid(c07NetworkID) != nil:
+		return "proposal-not-signed-by-proposer", fmt.Sprintf("names %v as proposer but its signature does not verify", named)
+	case !pr.Point().Equal(point):
+		return "proposal-wrong-point", fmt.Sprintf("is for point %v", pr.Point())
+	default:
+		return "", ""
+	}
+}
+
+// c07RunView runs Select once on one node. first is the proposer the peers' First answer kind (and Pooled) refer to.
+// short: use waits short enough for the fall-back path (next candidates, own proposal) to run; no verdict depends on them.
+func c07RunView(
+	nodes []isaac.LocalNode, outsider, forger isaac.LocalNode, v c07View, point base.Point, prev util.Hash,
+	first base.LocalNode, short bool,
+) (res c07Result) {
 	started := time.Now()
 
 	defer func() {
@@ -169,7 +319,86 @@ func c07RunView(nodes []isaac.LocalNode, outsider isaac.LocalNode, v c07View, po
 
 	pool := c07NewPool()
 
-	var askedLock sync.Mutex
+	if v.Pooled && first != nil {
+		sf, err := c07Sign(point, first.Address(), first.Privatekey(), c07NetworkID, prev)
+		if err != nil {
+			res.harnessErr = err
+
+			return res
+		}
+
+		_, _ = pool.SetProposal(sf)
+	}
+
+	var lock sync.Mutex
+
+	type answer struct {
+		pr    base.ProposalSignFact
+		found bool
+		err   error
+	}
+
+	answers := map[string]answer{}
+
+	cis := make([]quicstream.ConnInfo, len(v.Peers))
+	for i := range cis {
+		cis[i] = quicstream.UnsafeConnInfo(&net.UDPAddr{IP: net.IPv4(127, 0, 0, 1), Port: c07PortBase + i}, true)
+	}
+
+	done := false // set (under lock) once Select has returned: requests still in flight no longer touch res
+
+	client := c07Client{f: func(ci quicstream.ConnInfo, point base.Point, proposer base.Address, prev util.Hash) (base.ProposalSignFact, bool, error) {
+		lock.Lock()
+		defer lock.Unlock()
+
+		if done {
+			return nil, false, errors.Errorf("closed")
+		}
+
+		pi := ci.UDPAddr().Port - c07PortBase
+		if pi < 0 || pi >= len(v.Peers) {
+			res.harnessErr = errors.Errorf("unknown peer %v", ci)
+
+			return nil, false, res.harnessErr
+		}
+
+		var asked base.LocalNode
+
+		for i := range nodes {
+			if nodes[i].Address().Equal(proposer) {
+				asked = nodes[i]
+			}
+		}
+
+		if asked == nil {
+			res.harnessErr = errors.Errorf("asked for a node outside the suffrage, %q", proposer)
+
+			return nil, false, res.harnessErr
+		}
+
+		kind := v.Peers[pi].Rest
+		if first == nil || asked.Address().Equal(first.Address()) {
+			kind = v.Peers[pi].First
+		}
+
+		res.served[kind]++
+
+		k := fmt.Sprintf("%d/%s", pi, proposer)
+		if a, found := answers[k]; found {
+			return a.pr, a.found, a.err
+		}
+
+		var other base.LocalNode = forger
+		if o := v.Peers[pi].Other; o >= 0 && o < len(nodes) && !nodes[o].Address().Equal(proposer) {
+			other = nodes[o]
+		}
+
+		var a answer
+		a.pr, a.found, a.err = c07Answer(kind, asked, other, point, prev)
+		answers[k] = a
+
+		return a.pr, a.found, a.err
+	}}
 
 	args := isaac.NewBaseProposalSelectorArgs()
 	args.Pool = pool
@@ -184,36 +413,56 @@ func c07RunView(nodes []isaac.LocalNode, outsider isaac.LocalNode, v c07View, po
 
 		return listed, true, nil
 	}
-	args.RequestFunc = func(_ context.Context, point base.Point, proposer base.Node, prev util.Hash) (base.ProposalSignFact, bool, error) {
-		askedLock.Lock()
-		res.asked = append(res.asked, proposer.Address())
-		askedLock.Unlock()
+	args.RequestFunc = func(ctx context.Context, point base.Point, proposer base.Node, prev util.Hash) (base.ProposalSignFact, bool, error) {
+		lock.Lock()
+		if done {
+			lock.Unlock()
 
-		for i := range nodes {
-			if !nodes[i].Address().Equal(proposer.Address()) {
-				continue
-			}
-
-			sf := isaac.NewProposalSignFact(isaac.NewProposalFact(point, nodes[i].Address(), prev, nil))
-			if err := sf.Sign(nodes[i].Privatekey(), c07NetworkID); err != nil {
-				return nil, false, err
-			}
-
-			return sf, true, nil
+			return nil, false, errors.Errorf("closed")
 		}
 
-		return nil, false, errors.Errorf("asked a node outside the suffrage, %q", proposer.Address())
+		if len(res.asked) < 1 || !res.asked[len(res.asked)-1].Equal(proposer.Address()) {
+			res.asked = append(res.asked, proposer.Address())
+		}
+		lock.Unlock()
+
+		// as launch wires it: ask the alive members concurrently, take the first expected answer
+		return isaac.ConcurrentRequestProposal(ctx, point, proposer, prev, client, cis, c07NetworkID)
 	}
 	args.MinProposerWait = time.Second * 40
 	args.TimeoutRequest = func() time.Duration { return time.Second * 30 }
 
+	if short {
+		args.MinProposerWait = time.Millisecond * 60
+		args.RequestProposalInterval = time.Millisecond * 10
+	}
+
 	pr, err := isaac.NewBaseProposalSelector(local, args).Select(context.Background(), point, prev, 0)
+
+	lock.Lock()
+	done = true
+	lock.Unlock()
+
+	pool.Lock()
+	keys := make([]string, 0, len(pool.byfact))
+	for k := range pool.byfact {
+		keys = append(keys, k)
+	}
+
+	sort.Strings(keys)
+
+	for _, k := range keys {
+		res.pool = append(res.pool, pool.byfact[k])
+	}
+	pool.Unlock()
+
 	if err != nil {
 		res.err = err
 
 		return res
 	}
 
+	res.pr = pr
 	res.selected = pr.ProposalFact().Proposer()
 
 	return res
@@ -224,13 +473,22 @@ func TestC07(t *testing.T) {
 	defer r.Finish()
 	r.Rule("suffrages of 1..64 nodes with distinct addresses over a small alphabet (prefixes, case, punctuation), random point and previous-block hash; " +
 		"8 node views per case, each listing the suffrage in its own drawn permutation and running on a drawn member (or an outsider), all driven through BaseProposalSelector.Select " +
-		"with BlockBasedProposerSelector; the request stub answers with a valid proposal signed by whoever is asked, so the proposer of the returned proposal is the selected one. " +
-		"All views must select the same node and it must be a suffrage member; BlockBasedProposerSelector.Select alone must answer with an element of its input, twice the same. " +
-		"non-trivial: >= 3 nodes and at least two views with different list orders; distinct by (addresses, point, previous block, permutations)")
+		"with BlockBasedProposerSelector and, as request function, isaac.ConcurrentRequestProposal (the production wiring) over 1..4 stub peers. In half of the cases every view, otherwise views 0,1 and half of the others, have one honest peer " +
+		"(a valid proposal signed by whoever is asked); the others have peers that, per peer, answer for the first-choice proposer and for later candidates with one of: honest, not-found, error, " +
+		"another address signed with the asked proposer's key, the asked proposer's address signed with another (member or outsider) key, another node's own proposal, the proposer's proposal for another point, " +
+		"a signature for another network id; optionally the genuine proposal is already pooled. " +
+		"All views that can obtain the first-choice proposer's genuine proposal must return it, the same for all, from a suffrage member; every view, also one that can not (it falls to the next candidates or its own proposal), " +
+		"must return and pool only proposals that name a suffrage member (or the node itself) and are signed with that node's key for the asked point. " +
+		"BlockBasedProposerSelector.Select alone must answer with an element of its input, twice the same. " +
+		"non-trivial: >= 3 nodes and at least two views with different list orders; distinct by (addresses, point, previous block, views)")
 	r.Floor(100)
 	r.Assume(
 		"suffrage node addresses are distinct (NewSuffrage rejects duplicates)",
-		"no request fails or times out (stubs answer at once; waits are 30-40 s), so only the first-choice proposer path is judged; a case slower than 10 s is discarded, not judged",
+		"views whose peers include an honest answer for the first-choice proposer (or that run on it, or have it pooled) use waits of 30-40 s and stubs answer at once; a case slower than 10 s is discarded, not judged",
+		"views without any genuine answer for the first-choice proposer use short waits (60 ms) so that the fall-back path runs; which candidate they end with depends on timing and is not judged, "+
+			"only that what they return and pool is a genuine proposal of a member (or their own)",
+		"a node outside the suffrage that falls back to its own proposal is not judged for membership (real callers run the selector on suffrage members only)",
+		"forging peers are other nodes: they can sign with any key they hold except in combination (address, key) of the asked proposer; a proposal with the right proposer and key but another previous block is not generated",
 	)
 
 	r.Checks(300, 5000)
@@ -265,6 +523,7 @@ func TestC07(t *testing.T) {
 		}
 
 		outsider := isaac.NewLocalNode(c07Key(c07MaxNodes), base.NewStringAddress("outsider-node"))
+		forger := isaac.NewLocalNode(c07Key(c07MaxNodes+1), base.NewStringAddress("forger-node"))
 
 		height := rapid.OneOf(rapid.Int64Range(1, 40), rapid.Int64Range(1, 1<<40)).Draw(rt, "height")
 		round := rapid.OneOf(rapid.Uint64Range(0, 5), rapid.Uint64Range(0, 1<<20)).Draw(rt, "round")
@@ -272,6 +531,10 @@ func TestC07(t *testing.T) {
 		prev := valuehash.NewBytes(rapid.SliceOfN(rapid.Byte(), 32, 32).Draw(rt, "prev"))
 
 		const nviews = 8
+
+		// half of the cases have only honest peers (they cost ~40 ms; a case with a view that has to wait for its
+		// first-choice proposer in vain costs three times that)
+		faulty := rapid.Bool().Draw(rt, "faulty")
 
 		views := make([]c07View, nviews)
 		orders := map[string]struct{}{}
@@ -295,7 +558,42 @@ func TestC07(t *testing.T) {
 				idx = rapid.Permutation(idx).Draw(rt, "perm")
 			}
 
-			views[i] = c07View{Perm: idx, Local: rapid.IntRange(-1, n-1).Draw(rt, "local")}
+			v := c07View{Perm: idx, Local: rapid.IntRange(-1, n-1).Draw(rt, "local"), Peers: []c07Peer{{}}}
+
+			if faulty && i >= 2 {
+				switch rapid.IntRange(0, 5).Draw(rt, "peermode") {
+				case 0, 1, 2:
+				case 3:
+					v.Mode = c07ModeMixed
+				default:
+					v.Mode = c07ModeStarved
+				}
+			}
+
+			if v.Mode != c07ModeHonest {
+				maxpeers, minfirst := 4, 0
+				if v.Mode == c07ModeStarved {
+					maxpeers, minfirst = 3, 1
+				}
+
+				v.Peers = make([]c07Peer, rapid.IntRange(1, maxpeers).Draw(rt, "npeers"))
+
+				for j := range v.Peers {
+					v.Peers[j].First = rapid.IntRange(minfirst, c07NKinds-1).Draw(rt, "first")
+
+					if !rapid.Bool().Draw(rt, "resthonest") {
+						v.Peers[j].Rest = rapid.IntRange(1, c07NKinds-1).Draw(rt, "rest")
+					}
+
+					v.Peers[j].Other = rapid.IntRange(-1, n-1).Draw(rt, "other")
+				}
+
+				if v.Mode == c07ModeMixed {
+					v.Pooled = rapid.IntRange(0, 3).Draw(rt, "pooled") == 0
+				}
+			}
+
+			views[i] = v
 			orders[fmt.Sprint(idx)] = struct{}{}
 		}
 
@@ -344,6 +642,34 @@ func TestC07(t *testing.T) {
 			}
 		}()
 
+		// ---- which proposer the peers' answer kinds refer to, and which views get short waits. This only configures the
+		// stubs; the verdict uses what the honest views 0 and 1 select (and fault views are not judged for agreement
+		// when the two differ).
+		var first base.LocalNode
+
+		func() {
+			defer func() { _ = recover() }() // judged above
+
+			sorted := make([]base.Node, n)
+			for i := range nodes {
+				sorted[i] = nodes[i]
+			}
+
+			sort.Slice(sorted, func(i, j int) bool { return sorted[i].Address().String() < sorted[j].Address().String() })
+
+			if a, err := isaac.NewBlockBasedProposerSelector().Select(context.Background(), point, sorted, prev); err == nil && a != nil {
+				for i := range nodes {
+					if nodes[i].Address().Equal(a.Address()) {
+						first = nodes[i]
+					}
+				}
+			}
+		}()
+
+		if first == nil {
+			first = nodes[0]
+		}
+
 		// ---- all views, concurrently (everything is drawn by now)
 		results := make([]c07Result, nviews)
 
@@ -355,7 +681,8 @@ func TestC07(t *testing.T) {
 			go func(i int) {
 				defer wg.Done()
 
-				results[i] = c07RunView(nodes, outsider, views[i], point, prev)
+				short := views[i].Mode != c07ModeHonest && views[i].c07Starved(nodes, first.Address())
+				results[i] = c07RunView(nodes, outsider, forger, views[i], point, prev, first, short)
 			}(i)
 		}
 
@@ -372,7 +699,17 @@ func TestC07(t *testing.T) {
 					who = results[i].selected.String()
 				}
 
-				fmt.Fprintf(&sb, "\n  view %d order=%v local=%d -> %s", i, views[i].Perm, views[i].Local, who)
+				fmt.Fprintf(&sb, "\n  view %d order=%v local=%d", i, views[i].Perm, views[i].Local)
+
+				if views[i].Mode != c07ModeHonest {
+					fmt.Fprintf(&sb, " pooled=%v peers(first-choice/later/borrowed identity)=", views[i].Pooled)
+
+					for _, p := range views[i].Peers {
+						fmt.Fprintf(&sb, "[%s/%s/%d]", c07KindNames[p.First], c07KindNames[p.Rest], p.Other)
+					}
+				}
+
+				fmt.Fprintf(&sb, " -> %s", who)
 			}
 
 			return sb.String()
@@ -392,16 +729,62 @@ func TestC07(t *testing.T) {
 			return
 		}
 
+		ref := results[0].selected
+		consistent := ref != nil && ref.Equal(first.Address())
+		nstarved, nfault := 0, 0
+
+		var served [c07NKinds]int
+
 		for i := range results {
 			res := results[i]
+			v := views[i]
+
+			local := outsider
+			if v.Local >= 0 {
+				local = nodes[v.Local]
+			}
+
+			fault := v.Mode != c07ModeHonest
+			starved := fault && v.c07Starved(nodes, first.Address())
+
+			if fault {
+				nfault++
+			}
+
+			if starved {
+				nstarved++
+			}
+
+			for k := range served {
+				served[k] += res.served[k]
+			}
 
 			switch {
 			case res.panicked != nil:
 				r.Violation(rt, "proposer-select-panic", "BaseProposalSelector.Select panicked in view %d: %v\n%s", i, res.panicked, desc())
+			case res.harnessErr != nil:
+				rt.Fatalf("view %d: harness: %+v\n%s", i, res.harnessErr, desc())
 			case res.err != nil:
 				rt.Fatalf("view %d: Select failed (not judged): %+v\n%s", i, res.err, desc())
-			case len(res.asked) > 1, len(res.asked) == 1 && !res.asked[0].Equal(res.selected):
-				rt.Fatalf("view %d: the retry path ran without any failure injected (asked %v, got %v)\n%s", i, res.asked, res.selected, desc())
+			}
+
+			// what the node came out with, and everything it pooled on the way, is a genuine proposal
+			if sig, why := c07Forged(res.pr, nodes, local, point); sig != "" {
+				r.Violation(rt, sig, "view %d: Select returned a proposal that %s\n%s", i, why, desc())
+			}
+
+			for _, pr := range res.pool {
+				if sig, why := c07Forged(pr, nodes, local, point); sig != "" {
+					r.Violation(rt, "forged-proposal-pooled", "view %d: Select pooled a proposal that %s\n%s", i, why, desc())
+				}
+			}
+
+			if starved || (fault && !consistent) {
+				continue // no genuine proposal of the first-choice proposer within reach: which candidate it ends with is not judged
+			}
+
+			if len(res.asked) > 1 || (len(res.asked) == 1 && !res.asked[0].Equal(res.selected)) {
+				rt.Fatalf("view %d: the retry path ran although the first-choice proposer's proposal was within reach (asked %v, got %v)\n%s", i, res.asked, res.selected, desc())
 			}
 
 			member := false
@@ -416,9 +799,14 @@ func TestC07(t *testing.T) {
 				r.Violation(rt, "proposer-not-member", "view %d selected %v which is not a suffrage member\n%s", i, res.selected, desc())
 			}
 
-			if !res.selected.Equal(results[0].selected) {
-				r.Violation(rt, "proposer-differs-by-order", "views 0 and %d select different proposers (%v, %v) for the same point, previous block and suffrage\n%s",
-					i, results[0].selected, res.selected, desc())
+			if !res.selected.Equal(ref) {
+				sig := "proposer-differs-by-order"
+				if fault {
+					sig = "proposer-differs-by-peer-answers"
+				}
+
+				r.Violation(rt, sig, "views 0 and %d select different proposers (%v, %v) for the same point, previous block and suffrage\n%s",
+					i, ref, res.selected, desc())
 			}
 		}
 
@@ -445,8 +833,24 @@ func TestC07(t *testing.T) {
 			}
 		}
 
+		classes := []string{nclass, fmt.Sprintf("orders:%d", len(orders)), selfsel}
+
+		if nfault > 0 {
+			classes = append(classes, "fault-views:yes")
+		}
+
+		if nstarved > 0 {
+			classes = append(classes, "starved-views:yes")
+		}
+
+		for k := 1; k < c07NKinds; k++ {
+			if served[k] > 0 {
+				classes = append(classes, "answered:"+c07KindNames[k])
+			}
+		}
+
 		fp := fmt.Sprintf("%v|%v|%v|%v", names, point, prev, views)
-		r.Case(fp, nontrivial, nclass, fmt.Sprintf("orders:%d", len(orders)), selfsel)
+		r.Case(fp, nontrivial, classes...)
 
 		if nontrivial && r.WantSample() {
 			perms := make([][]int, 0, 3)
@@ -457,6 +861,7 @@ func TestC07(t *testing.T) {
 			r.Sample(map[string]any{
 				"suffrage": names, "height": height, "round": round, "previous_block": prev.String(),
 				"first_3_view_orders": perms, "selected": results[0].selected.String(),
+				"fault_views": nfault, "starved_views": nstarved,
 			})
 		}
 	})
